@@ -19,7 +19,7 @@ ID = "C12"
 LEVEL = "model_checking"
 RULE = (
     "group definitions: all 5 partitions of {1,2,3} x per block kind in {plain, merge, single-instance(singletons)} with at most one non-plain block (thorough: any) x every block order x 3 naming schemes "
-    "(68 definitions quick); bases: all predictions of G1(3,3) x 6 refs (thorough: G1(3,3)^2, G2(2,2,3) x 16) x input type {UNMATCHED, MATCHED, SEMANTIC}; repeated evaluate() on the same arrays; every fourth case additionally with a decision metric (IoU >= 0.6; plain and merge groups judged, whatever group was evaluated before them); every fifth case additionally with labels {1,2,3} -> {300, 2, 65535} in uint16; "
+    "(68 definitions quick); bases: all predictions of G1(3,3) x 6 refs (thorough: G1(3,3) x 24 refs with every kind assignment, G2(2,2,3) x 16) x input type {UNMATCHED, MATCHED, SEMANTIC}; repeated evaluate() on the same arrays; every fourth case additionally with a decision metric (IoU >= 0.6; plain and merge groups judged, whatever group was evaluated before them); every fifth case additionally with labels {1,2,3} -> {300, 2, 65535} in uint16; "
     "rejection: every proper subset S of {1,2,3} as the only group x all pairs of G1(3,3) x input types (must raise iff a label outside S is present), and length-2 maps over {-3..3} "
     "in int8/int64 semantic input (must raise iff a negative or undefined label is present). non-trivial = >= 2 groups and both restricted arrays non-empty for some group; distinct by (pair, definition, input type)"
 )
@@ -56,7 +56,7 @@ def blocks(tier):
     nd = len(definitions(tier))
     for lo, hi in sc.ranges(n, 1):
         for dlo, dhi in sc.ranges(nd, 17 if tier == "quick" else 40):
-            B.append(("diff", tier, (3,), 3, 6 if tier == "quick" else None, lo, hi, dlo, dhi))
+            B.append(("diff", tier, (3,), 3, 6 if tier == "quick" else 24, lo, hi, dlo, dhi))
     if tier == "thorough":
         n2 = sc.grid_count((2, 2), 3)
         for lo, hi in sc.ranges(n2, 2):
